@@ -16,11 +16,14 @@
        P the frame spanned by the solution cores left and right of position i (every order, position, dimension, rank).
      - the same frame identity for the two-site micro matrix of MALS (and of two-site TDVP): sum over r, rm, r' of
        Kernel_left * A_i[r,x1,y1,rm] * A_{i+1}[rm,x2,y2,r'] * RightProd.
-   NOT proved here (model + oracle-tape correspondence + side check only): the composition of these facts over whole
-   sweeps (monotone energy from sweep to sweep, fixed point, exactness at maximal ranks) and the right-hand-side stacks.  Known findings F16/F16b: MALS with an active max_rank is not monotone. *)
+     - the right-hand-side environments in closed form and the frame identity  micro_rhs = P^H b  (the projected deflation
+       tensors of evp.als have the same form).  Together with the Galerkin identity: every micro step solves the Galerkin
+       system of the current frame, so it cannot increase the energy-norm error.
+   NOT proved here (model + oracle-tape correspondence + side check only): the bookkeeping that composes these facts over
+   whole sweeps (flattening of the multi-indices, QR/RQ gauge changes keep the iterate), exactness at maximal ranks.  Known findings F16/F16b: MALS with an active max_rank is not monotone. *)
 From Coq Require Import ZArith List Lia Arith.
 Import ListNotations.
-Require Import Ring Sums Matrix Core Chain TensordotProof Env EnvProof Galerkin FrameProof FrameProof2.
+Require Import Ring Sums Matrix Core Chain TensordotProof Env EnvProof Galerkin FrameProof FrameProof2 RhsFrameProof.
 Open Scope cr_scope.
 
 Theorem C07_galerkin_descent (R : cring) (N : nat) (A : nat -> nat -> R)
@@ -87,3 +90,12 @@ Theorem C07_frame_mals (R : cring) (Xp Ap Xs As : list (core R)) (A1 A2 : core R
     Kernel Xp Ap 0%nat 0%nat 0%nat s r c * g A1 r x1 y1 rm * g A2 rm x2 y2 r' * RightProd Xs As s' r' c'))).
 Proof. exact (frame_mals Xp Ap Xs As A1 A2 fx c x1 x2 c' s y1 y2 s'). Qed.
 Print Assumptions C07_frame_mals.
+
+Theorem C07_frame_rhs (R : cring) (Xp Bp Xs Bs : list (core R)) (B : core R) fx c x c' :
+  length Bp = length Xp -> linked Xp fx -> linked Bp (rl B) -> rl_of Xp fx = 1%nat -> rl_of Bp (rl B) = 1%nat ->
+  length Bs = length Xs -> linked Xs 1%nat -> linked Bs 1%nat -> rl_of Bs 1%nat = rr B ->
+  (c < fx)%nat -> (c' < rl_of Xs 1)%nat -> (x < md B)%nat ->
+  snd (micro_rhs_als (lstack2_from one2 Xp Bp) (rstack2 Xs Bs) B fx (rl_of Xs 1%nat)) ((c * md B + x) * rl_of Xs 1%nat + c')%nat 0%nat =
+  sum (rl B) (fun be => sum (rr B) (fun be' => Kernel2 Xp Bp 0%nat 0%nat be c * g B be x 0%nat be' * RightProd2 Xs Bs be' c')).
+Proof. exact (frame_rhs_als Xp Bp Xs Bs B fx c x c'). Qed.
+Print Assumptions C07_frame_rhs.
